@@ -2306,6 +2306,33 @@ class _Normalizer:
                             binds.append(ast.Assign(targets=[ast.Name(id=p_, ctx=ast.Store())], value=a_))
                         new_tail = binds + copy.deepcopy(_body(g))
                         fnode.body = [st for st in fnode.body if st is not g]
+        if new_tail is None and isinstance(v, ast.Call) and ast.unparse(v.func) in ('itertools.chain', 'chain') and v.args \
+                and not v.keywords and not any(isinstance(a, ast.Starred) for a in v.args):
+            # ``return itertools.chain(A, g(args), ...)``: the items of each operand in turn.  A call of a generator helper is
+            # expanded with its parameters bound to the arguments.  (When things are evaluated -- at the call, or when the items
+            # are pulled -- is not kept by this form; the rules that care about it read the original function, see
+            # pitfalls.phase_split_problems.)
+            pre: List[ast.stmt] = []
+            loops: List[ast.stmt] = []
+            ok = True
+            for k_, a_ in enumerate(v.args):
+                h = self._helper_of(a_, cls) if isinstance(a_, ast.Call) else None
+                if h is not None and h[0].node is not fnode and any(isinstance(n, ast.Yield) for n in ast.walk(h[0].node)) \
+                        and not any(isinstance(n, (ast.Return, ast.YieldFrom)) for n in ast.walk(h[0].node)):
+                    ha = h[0].node.args
+                    exp = None if (ha.vararg or ha.kwarg or ha.kwonlyargs or ha.posonlyargs) else self._expand(h[0], h[1], a_, allow_yield=True)
+                    if exp is None:
+                        ok = False
+                        break
+                    loops.extend(exp[0])
+                    self.inlined.append(('%s:%s' % (self.m.name, fnode.name), h[0].key, id(fnode)))
+                else:
+                    self.counter += 1
+                    it = '__c%d_item' % self.counter
+                    loops.append(ast.For(target=ast.Name(id=it, ctx=ast.Store()), iter=a_,
+                                         body=[ast.Expr(value=ast.Yield(value=ast.Name(id=it, ctx=ast.Load())))], orelse=[]))
+            if ok:
+                new_tail = pre + loops
         if new_tail is None and isinstance(v, ast.Call):
             # ``return _helper_generator(args)``: the same with a generator that is a helper function / method of its own
             h = self._helper_of(v, cls)
@@ -2704,6 +2731,32 @@ class _Normalizer:
                         if isinstance(inner_, ast.Name) and inner_.id == gname and n_uses == 2:
                             st.value.args[0] = pv.value
                             out.pop()
+                if out:
+                    # L = [E for t in S if C]; for x in L: BODY with L used nowhere else: the loop runs over the comprehension.
+                    # (Whether the elements are all computed first or one per turn differs only in when; the body must not
+                    # write what the comprehension reads.)
+                    pv = out[-1]
+                    if isinstance(pv, ast.Assign) and len(pv.targets) == 1 and isinstance(pv.targets[0], ast.Name) \
+                            and isinstance(pv.value, (ast.ListComp, ast.GeneratorExp)) and len(pv.value.generators) == 1 \
+                            and isinstance(st, ast.For) and isinstance(st.iter, ast.Name) and st.iter.id == pv.targets[0].id \
+                            and sum(1 for n in ast.walk(fnode) if isinstance(n, ast.Name) and n.id == pv.targets[0].id) == 2 \
+                            and not _has_yield(pv.value):
+                        reads = {n.id for n in ast.walk(pv.value) if isinstance(n, ast.Name) and isinstance(n.ctx, ast.Load)}
+                        reads_a = {ast.unparse(n) for n in ast.walk(pv.value) if isinstance(n, ast.Attribute) and _is_simple(n)}
+                        writes = False
+                        for b in st.body:
+                            for n in ast.walk(b):
+                                if isinstance(n, ast.Name) and isinstance(n.ctx, (ast.Store, ast.Del)) and n.id in reads:
+                                    writes = True
+                                if isinstance(n, (ast.Attribute, ast.Subscript)) and isinstance(n.ctx, (ast.Store, ast.Del)):
+                                    t_ = ast.unparse(n.value if isinstance(n, ast.Subscript) else n)
+                                    if any(t_ == r or r.startswith(t_ + '.') or t_.startswith(r + '.') for r in reads_a):
+                                        writes = True
+                        only_yields = all(isinstance(b, ast.Expr) and isinstance(b.value, ast.Yield) for b in st.body)
+                        if not writes and (only_yields or not any(isinstance(n, ast.Call) for b in st.body for n in ast.walk(b))):
+                            st.iter = ast.copy_location(ast.GeneratorExp(elt=pv.value.elt, generators=pv.value.generators), st.iter)
+                            out.pop()
+                            me.stats['iteration_idioms'] = me.stats.get('iteration_idioms', 0) + 1
                 if out:
                     acc = accumulation(out[-1], st)
                     if acc is not None:
